@@ -73,14 +73,18 @@ def gen_case(rng):
     for _ in range(rng.randint(0, 4)):
         parts = [rng.choice([b"", b"x", b"-o", b"pre", R, R, b"/"]) for _ in range(rng.randint(1, 4))]
         init.append(b"".join(parts))
+    # the command word is run as written, also when the replacement string occurs in it
+    word = rng.choice([b"cmd", b"cmd", b"cmd", R + b"c", b"c" + R + b"d" + R])
+    if word.startswith(b"-"):
+        word = b"c" + word              # (a first word beginning with a hyphen is an option of xargs, not the command)
     # -s: with -I it limits the command line after the line has been put in (C06_substituted_meets_s): values around that size
     smax = None
     if rng.random() < 0.3:
         line0 = b" ".join(next((ws for ws in lines if ws), [b"x"]))
-        sub = sum(len(a.replace(R, line0)) + 1 for a in [b"cmd"] + init)
-        smax = max(1, rng.choice([sub + d for d in (-6, -2, -1, 0, 1, 2, 9)] + [sum(len(a) + 1 for a in [b"cmd"] + init) + d for d in (0, 1, 3)] + [4000]))
+        sub = len(word) + 1 + sum(len(a.replace(R, line0)) + 1 for a in init)
+        smax = max(1, rng.choice([sub + d for d in (-6, -2, -1, 0, 1, 2, 9)] + [sum(len(a) + 1 for a in [word] + init) + d for d in (0, 1, 3)] + [4000]))
         opts += rng.choice([["-s", str(smax)], ["-s%d" % smax], ["--max-chars=%d" % smax]])
-    return dict(R=R, opts=opts, seq=seq, r="-r" in opts, lines=lines, final_nl=final_nl, cmd=[b"cmd"] + init, s=smax)
+    return dict(R=R, opts=opts, seq=seq, r="-r" in opts, lines=lines, final_nl=final_nl, cmd=[word] + init, s=smax)
 
 
 def input_of(c):
